@@ -1287,6 +1287,69 @@ fn gen_all(rng: &mut Rng, tier: Tier, n: usize, emit: &mut dyn FnMut(String)) {
             emit(format!("pow {} {} {}", f, h, gf));
         }
     }
+    // --- histories (a ;; b ;; c back to back in one process): coins are independent objects and the hashers are pure
+    //     functions, so a coin's outputs must not depend on coins driven before it.  Consecutive coins differ in exactly
+    //     one thing (nonce at a boundary, one seed element, the domain size, the count, the element degree, the reseed
+    //     data), in both orders and A ;; B ;; A; toy hasher compared with the model directly, the real hashers through
+    //     digest tables recorded here (in this process, op by op, before the histories run)
+    {
+        let mut all: Vec<(&str, &str)> = vec![("toy0", "f64"), ("toy0", "f62"), ("toy0", "f128"), ("toy1", "f62")];
+        all.extend_from_slice(&COMBOS);
+        for (h, f) in all {
+            let p64 = wf_harness::fields::M64 as u64;
+            let line = |seed: &str, ops: &str| -> Option<String> {
+                if h.starts_with("toy") {
+                    Some(format!("run {} {} {} {}", h, f, seed, ops))
+                } else {
+                    let opsv: Vec<String> = ops.split(' ').map(|x| x.to_string()).collect();
+                    let sd = parse_seed(seed).unwrap();
+                    let table = dispatch(h, f, TableJob { field: f, seed: &sd, ops: &opsv })??;
+                    Some(format!("oracle {} {} {} {} {}", h, f, seed, table, ops))
+                }
+            };
+            let base_ops = |nonce: u64, n: u64, dom: u64, deg: u64, rs: &str| format!("d:{} rs:{} lz:{} di:{}:{}:{} d:1 d:{}", deg, rs, nonce, n, dom, nonce, deg);
+            let mut variants: Vec<(String, String, String)> = vec![];
+            for (la, lb, a, b) in [
+                ("nonce0", "nonceP", base_ops(0, 5, 64, 1, "01"), base_ops(p64, 5, 64, 1, "01")),
+                ("nonceP", "nonceP+1", base_ops(p64, 5, 64, 1, "01"), base_ops(p64 + 1, 5, 64, 1, "01")),
+                ("nonce0", "nonceMax", base_ops(0, 5, 64, 1, "01"), base_ops(u64::MAX, 5, 64, 1, "01")),
+                ("nonce0", "nonce2^32", base_ops(0, 5, 64, 1, "01"), base_ops(1 << 32, 5, 64, 1, "01")),
+                ("nonce1", "nonce2^63+1", base_ops(1, 5, 64, 1, "01"), base_ops((1 << 63) + 1, 5, 64, 1, "01")),
+                ("n5", "n6", base_ops(7, 5, 64, 1, "01"), base_ops(7, 6, 64, 1, "01")),
+                ("dom64", "dom128", base_ops(7, 5, 64, 1, "01"), base_ops(7, 5, 128, 1, "01")),
+                ("deg1", "deg2", base_ops(7, 5, 64, 1, "01"), base_ops(7, 5, 64, 2, "01")),
+                ("rs01", "rs02", base_ops(7, 5, 64, 1, "01"), base_ops(7, 5, 64, 1, "02")),
+            ] {
+                variants.push((format!("{}->{}", la, lb), format!("3,4|{}", a), format!("3,4|{}", b)));
+            }
+            variants.push(("seed3,4->seed3,5".into(), format!("3,4|{}", base_ops(7, 5, 64, 1, "01")), format!("3,5|{}", base_ops(7, 5, 64, 1, "01"))));
+            variants.push(("seed3->seed3,0".into(), format!("3|{}", base_ops(7, 5, 64, 1, "01")), format!("3,0|{}", base_ops(7, 5, 64, 1, "01"))));
+            for (label, a, b) in variants {
+                let (sa, oa) = a.split_once('|').unwrap();
+                let (sb, ob) = b.split_once('|').unwrap();
+                if let (Some(la), Some(lb)) = (line(sa, oa), line(sb, ob)) {
+                    if la.len() + lb.len() < 40_000 {
+                        emit(format!("tag {}.{}:{} ;; {} ;; {}", h, f, label, la, lb));
+                        emit(format!("tag {}.{}:{}:rev ;; {} ;; {}", h, f, label, lb, la));
+                        emit(format!("tag {}.{}:{}:aba ;; {} ;; {} ;; {}", h, f, label, la, lb, la));
+                    }
+                }
+            }
+            // random pairs
+            for _ in 0..(if thorough { 60 } else { 8 }) {
+                let oa = rand_ops(rng, 4, true).join(" ");
+                let ob = rand_ops(rng, 4, true).join(" ");
+                let (sa, sb) = (rand_seed(rng, f), rand_seed(rng, f));
+                if let (Some(la), Some(lb)) = (line(&sa, &oa), line(&sb, &ob)) {
+                    if la.len() + lb.len() < 40_000 {
+                        emit(format!("tag {}.{}:random ;; {} ;; {} ;; {}", h, f, la, lb, la));
+                    }
+                }
+            }
+        }
+        // across hashers and fields: a coin over one hasher / field must not disturb the next one
+        emit("tag cross ;; run toy0 f64 1 d:1 lz:3 ;; run toy0 f62 1 d:1 lz:3 ;; run toy1 f64 1 d:1 lz:3 ;; run toy0 f64 1 d:1 lz:3".to_string());
+    }
     // --- malformed stream
     for l in ["", "run", "run toy0", "run toy0 f64", "run toy0 f65 1 d:1", "run toy0 f64 1 d:4", "run toy0 f64 x d:1", "run toy0 f64 1 zz", "run toy0 f64 1 di:1:2", "run toy0 f64 1 rs:0", "oracle b3_256 f64 1"] {
         emit(l.to_string());
@@ -1310,6 +1373,7 @@ impl Prop for P {
     fn exec(&self, line: &str) -> Outcome {
         let t: Vec<&str> = line.split(' ').collect();
         match t[0] {
+            "tag" => Outcome::ok(if t.len() == 2 { "t" } else { "bad-op" }),
             "run" => exec_run(&t[1..], false),
             "oracle" => exec_run(&t[1..], true),
             "pow" => exec_pow(&t[1..]),
@@ -1322,6 +1386,10 @@ impl Prop for P {
     }
     fn class(&self, line: &str, out: &str) -> String {
         let t: Vec<&str> = line.split(' ').collect();
+        if line.contains(" ;; ") {
+            let label = if t[0] == "tag" { t.get(1).copied().unwrap_or("") } else { "unlabelled" };
+            return format!("hist:{}:{}", label, if out.contains("panic") { "panic" } else { "ok" });
+        }
         let o = if out == "bad-op" {
             "bad-op"
         } else if out.ends_with("panic") {
